@@ -158,7 +158,7 @@ def strategy(tier):
                     ops.append(["rematch"])
             case["ops"] = ops
             return case
-        case = draw(common.mixed_case(tier, ne_share=4, min_len=2))
+        case = draw(common.mixed_case(tier, ne_share=4, min_len=2, families=base.FAMILIES))
         if draw(st.integers(0, 2)) == 0:
             case["ops"] = draw(common.history_ops(len(case["trace"])))
             if case["config"].get("max_lattice_width") is None and draw(st.booleans()):
